@@ -1028,7 +1028,7 @@ def _bounded(tier, seed):
         if si % (4 if quick else 1) == 0:
             for pre, _ in reconfigurations(spec)[:3]:
                 scenario(R, spec, 13, 5, (1, 3), "fit", [(2, True, "update")], seed, pre=(pre[0],))
-    for _ in range(40 if quick else 600):
+    for _ in range(60 if quick else 1000):
         spec = random_spec(rng, 3)
         if spec[0] == "sf":
             continue
@@ -1066,7 +1066,7 @@ def _bounded(tier, seed):
             combos = combos[::2]
         for ci, combo in enumerate(combos):
             names, makers = [F[i][0] for i in combo], [F[i][1] for i in combo]
-            for ai, agg in enumerate(AGG if not quick else [sorted(AGG)[ci % 4], "median"]):
+            for ai, agg in enumerate(AGG):
                 c += 1
                 fh = FHS_ALL[c % len(FHS_ALL)]
                 real_ensemble(R, names, makers, agg, 24 + c % 5, 5 * (c % 2), fh, "fit" if c % 3 else "predict", rplans[c % len(rplans)], seed)
